@@ -197,6 +197,46 @@ def _referenced_bodies(b):
 
 
 # ---- private helpers: judged in the context of their callers -------------------------------------
+def reach_private(crate, b, within=None):
+    """bodies of the crate reachable from b through direct calls (transitively), b excluded; `within` restricts
+    the walk to a set of body keys"""
+    out, work, seen = [], [b], {b.key}
+    while work:
+        x = work.pop()
+        for cb in [x] + list(crate.closures_of(x)):
+            for bb, t in cb.calls():
+                k = callee_key(t)
+                y = crate.by_key.get(k) if k else None
+                if y is None or y.key in seen or y.is_closure:
+                    continue
+                if within is not None and y.key not in within:
+                    continue
+                seen.add(y.key)
+                out.append(y)
+                work.append(y)
+    return out
+
+
+def resolve_role(crate, entry, name, pred, what, candidates=None, named_ok=None):
+    """the body playing a private role: the one with the historical name if it still satisfies `pred`, else the
+    unique non-public body reachable from the public entry point(s) that does (roles are recognised by what
+    they do; private names are free to change)"""
+    entries = entry if isinstance(entry, (list, tuple)) else [entry]
+    for e in entries:
+        pref = e.path.rsplit("::", 1)[0]
+        b = crate.body("%s::%s" % (pref, name)) if name else None
+        if b is not None and (named_ok or pred)(b):
+            return b
+    found = []
+    for e in entries:
+        for y in reach_private(crate, e):
+            if y.vis != "pub" and pred(y) and y.key not in {f.key for f in found} and (candidates is None or y.key in candidates):
+                found.append(y)
+    if len(found) == 1:
+        return found[0]
+    raise Anchor("cannot identify %s: %s" % (what, "no candidate reachable from %s" % ", ".join(e.name for e in entries) if not found else "candidates %s" % [f.name for f in found]))
+
+
 def private_helpers(crate, adt_suffix, exclude=()):
     """non-public, non-recursive inherent methods / associated fns of the ADT that are not among the
     role functions `exclude` (bodies): extracted helpers are inlined into the analysis of their callers"""
@@ -251,3 +291,66 @@ def allowed_writers(crate, allowed_names, helpers):
                 allowed.add(h.name)
                 changed = True
     return allowed
+
+
+
+_READ_ONLY_METHODS = {"len", "is_empty", "iter", "deref", "index", "as_slice", "as_ptr", "get", "first", "last", "contains", "into_iter", "clone", "to_vec", "eq", "ne", "borrow", "as_ref", "chunks", "windows", "capacity", "split_at", "starts_with", "ends_with", "binary_search", "enumerate"}
+
+
+def mut_borrow_read_only(body, bb0, idx0):
+    """The `&mut place` taken by statement (bb0, idx0) is never written through: the reference (and its
+    reborrows / moves into other locals) is only read, reborrowed as shared, or handed to std methods that take
+    `&self`.  Conservative: any other use (assignment through it, index_mut / deref_mut, a call of an unknown
+    function, storing it in an aggregate) answers False."""
+    st0 = body.blocks[bb0]["stmts"][idx0]
+    aliases = {st0["place"]["l"]} if not st0["place"]["p"] else None
+    if aliases is None:
+        return False
+    changed = True
+
+    def rooted(pl):
+        return pl["l"] in aliases
+
+    def op_local(o):
+        return o["place"]["l"] if isinstance(o, dict) and o.get("k") in ("copy", "move") and not o["place"]["p"] else None
+
+    for _ in range(6):
+        if not changed:
+            break
+        changed = False
+        for bb, idx, s in body.statements():
+            if s["k"] != "assign" or (bb, idx) == (bb0, idx0):
+                continue
+            rv = s["rv"]
+            src = None
+            if rv["k"] == "use":
+                src = op_local(rv.get("op"))
+            elif rv["k"] == "ref" and rv["place"]["l"] in aliases and rv["bk"] != "shared" and all(e[0] == "deref" for e in rv["place"]["p"]):
+                src = rv["place"]["l"]
+            elif rv["k"] == "cast":
+                src = op_local(rv.get("op"))
+            if src in aliases and not s["place"]["p"] and s["place"]["l"] not in aliases:
+                aliases.add(s["place"]["l"])
+                changed = True
+    for bb, idx, s in body.statements():
+        if s["k"] != "assign":
+            continue
+        pl = s["place"]
+        if rooted(pl) and any(e[0] == "deref" for e in pl["p"]):
+            return False  # write through the reference
+        rv = s["rv"]
+        if rv["k"] == "ref" and rooted(rv["place"]) and rv["bk"] != "shared" and not all(e[0] == "deref" for e in rv["place"]["p"]):
+            return False  # &mut (*r).something: a mutable view of a part
+        if rv["k"] == "agg" and any(op_local(o) in aliases for o in rv.get("ops", [])):
+            return False
+    for bb, blk in enumerate(body.blocks):
+        t = blk["term"]
+        if t["k"] != "call":
+            if t["k"] == "asm" and any(op_local(o.get("op")) in aliases for o in t.get("operands", [])):
+                return False
+            continue
+        for a in t["args"]:
+            if op_local(a) in aliases:
+                if t["fn"].get("name") not in _READ_ONLY_METHODS or "indirect" in t["fn"]:
+                    return False
+    return True
